@@ -31,6 +31,7 @@ long raw_syscall6(long n, long a, long b, long c, long d, long e, long f) {
     return ret;
 }
 // TSan annotations (present only in the tsan runtime)
+void __tsan_write_range(void *, unsigned long) __attribute__((weak));
 void AnnotateIgnoreReadsBegin(const char *, int) __attribute__((weak));
 void AnnotateIgnoreReadsEnd(const char *, int) __attribute__((weak));
 void AnnotateIgnoreWritesBegin(const char *, int) __attribute__((weak));
@@ -48,6 +49,15 @@ SimScope::~SimScope() {
 }
 
 Sim G;
+void sut_write(void *dst, const void *src, size_t n) {
+    // results that the simulated OS stores into caller-supplied buffers are, for the race detector, writes made by the
+    // calling library thread: lift the "harness work is invisible" scope around the copy
+    if (AnnotateIgnoreReadsEnd && t_in_sim >= 1) { AnnotateIgnoreWritesEnd(__FILE__, __LINE__); AnnotateIgnoreReadsEnd(__FILE__, __LINE__); }
+    if (__tsan_write_range && n) __tsan_write_range(dst, n);
+    memcpy(dst, src, n);
+    if (AnnotateIgnoreReadsBegin && t_in_sim >= 1) { AnnotateIgnoreReadsBegin(__FILE__, __LINE__); AnnotateIgnoreWritesBegin(__FILE__, __LINE__); }
+}
+uintptr_t g_sut_lo = 0, g_sut_hi = 0;
 __thread OpState *t_op = nullptr;
 const char *g_variant = "asan-ts";
 bool g_thread_safe_build = true;
@@ -163,14 +173,17 @@ long k_read(int fd, void *buf, size_t n) {
     if (avail <= 0) return done(0, 0, false);
     size_t take = n < (size_t)avail ? n : (size_t)avail;
     if (faulted && f.special == 1 && take > 1) take = take / 2;
-    memcpy(buf, node.content.data() + d.off, take);
+    sut_write(buf, node.content.data() + d.off, take);
     d.off += (long)take;
     return done((long)take, 0, faulted);
 }
 
 long k_write(int fd, const void *buf, size_t n) {
-    sched_point(SP_IO); sim_step();
     auto it = G.fds.find(fd);
+    // stdout/stderr are shared streams: glibc holds the FILE lock around this callback, and a thread parked here
+    // would make every other thread block on a lock the scheduler cannot see. No preemption inside such a write.
+    if (!(it != G.fds.end() && it->second.kind >= 2)) sched_point(SP_IO);
+    sim_step();
     if (it != G.fds.end() && it->second.kind == 1) {  // write() on a socket == send(flags 0), already a scheduling point
         return k_send(fd, buf, n, 0);
     }
@@ -467,6 +480,7 @@ static int phdr_cb(struct dl_phdr_info *info, size_t, void *) {
         if (info->dlpi_phdr[i].p_type == PT_GNU_RELRO) { rs = info->dlpi_addr + info->dlpi_phdr[i].p_vaddr; re = rs + info->dlpi_phdr[i].p_memsz; re = (re + 4095) & ~(uintptr_t)4095; }
     for (int i = 0; i < info->dlpi_phnum; i++) {
         const ElfW(Phdr) &ph = info->dlpi_phdr[i];
+        if (ph.p_type == PT_LOAD && (ph.p_flags & PF_X)) { g_sut_lo = info->dlpi_addr + ph.p_vaddr; g_sut_hi = g_sut_lo + ph.p_memsz; }
         if (ph.p_type != PT_LOAD || !(ph.p_flags & PF_W)) continue;
         uintptr_t a = info->dlpi_addr + ph.p_vaddr, e = a + ph.p_memsz;
         if (rs && a < re && rs <= a) a = re;           // skip the read-only-after-relocation part
@@ -561,6 +575,8 @@ static int do_call(OpState &st, const ExecOp &op, char *path, char **argv, char 
 }
 
 void exec_call(const ExecOp &op, int opi, ExecObs &obs) {
+    t_in_sim++;                                // harness-side set-up: not library code (and hidden from TSan)
+    if (AnnotateIgnoreReadsBegin) { AnnotateIgnoreReadsBegin(__FILE__, __LINE__); AnnotateIgnoreWritesBegin(__FILE__, __LINE__); }
     OpState st; st.op = &op; st.opi = opi; st.obs = &obs;
     obs.opi = opi; obs.thr = t_thr;
     std::vector<char *> env_store;
@@ -582,7 +598,11 @@ void exec_call(const ExecOp &op, int opi, ExecObs &obs) {
     t_op = &st;
     sched_point(SP_CALL_ENTER);
     volatile long ret = 0; volatile int err = 0;
+    if (AnnotateIgnoreReadsEnd) { AnnotateIgnoreWritesEnd(__FILE__, __LINE__); AnnotateIgnoreReadsEnd(__FILE__, __LINE__); }
+    t_in_sim--;
     int returned = do_call(st, op, path, argv, envp, &ret, &err);
+    t_in_sim = 1;
+    if (AnnotateIgnoreReadsBegin) { AnnotateIgnoreReadsBegin(__FILE__, __LINE__); AnnotateIgnoreWritesBegin(__FILE__, __LINE__); }
     obs.returned = returned != 0; obs.ret = ret; obs.err = err;
     sched_point(SP_CALL_EXIT);
     t_op = nullptr;
@@ -597,6 +617,8 @@ void exec_call(const ExecOp &op, int opi, ExecObs &obs) {
     }
     if (!G.multi) { environ = saved_environ; free_vec(st.environ_ptr, env_store); }
     free_vec(argv, st.argv_c); free_vec(envp, st.envp_c); free(path);
+    if (AnnotateIgnoreReadsEnd) { AnnotateIgnoreWritesEnd(__FILE__, __LINE__); AnnotateIgnoreReadsEnd(__FILE__, __LINE__); }
+    t_in_sim = 0;
 }
 
 // harness-side strftime under the environment of the simulated process (oracle for %{datetime})
